@@ -384,7 +384,7 @@ pub fn run(args: &Args) {
         Ok(())
     };
     let below_known = report.is_known("entrypoint:specifier-not-relative");
-    crate::drive_parallel(&report, "transform", args.tier.pick(20_000, 400_000), || case_strategy(params.clone(), below_known), run_one, |(_, c)| to_json(c));
-    crate::drive_parallel(&report, "transform-exotic-ws", args.tier.pick(5_000, 100_000), || case_strategy(exotic.clone(), below_known), run_one, |(_, c)| to_json(c));
+    crate::drive_parallel(&report, "transform", args.tier.pick(80_000, 800_000), || case_strategy(params.clone(), below_known), run_one, |(_, c)| to_json(c));
+    crate::drive_parallel(&report, "transform-exotic-ws", args.tier.pick(20_000, 200_000), || case_strategy(exotic.clone(), below_known), run_one, |(_, c)| to_json(c));
     report.finish();
 }
